@@ -20,5 +20,5 @@ def run(run, tier, seed, args):
         "scopefunc is pure within one registry call (returns the same key each time it is called during that call); createfunc returns an arbitrary object",
         "dict operations are atomic in CPython and distinct threads use distinct keys: assumed, not checked (schedules are not explored)",
         "threading.local(): each thread sees its own attribute namespace, which disappears with the thread (trusted CPython semantics; the proof treats the object as the current thread's view with a may-be-absent attribute `value`)",
-        "Session.close() is outside the proof: a ghost flag `_g_closed` marks that it was called (assumed contract); scoped_session.__call__(**kw) is under proof for the thread-local registry (keyword arguments opaque); the generated proxy methods are bounded only",
+        "Session.close() is outside the proof: a ghost flag `_g_closed` marks that it was called (assumed contract); scoped_session.__call__(**kw) is under proof for both registry kinds (keyword arguments opaque; the factory call inside __call__(**kw) is read sequentially); the generated proxy methods are bounded only",
     ]
